@@ -107,7 +107,7 @@ Section Stream.
 
   Definition stream_ops (p : spkg) : list fop :=
     [Mkdir; OpenTrunc active; WriteFlush active (encD (fst p))]
-      ++ flat_map (fun rows => map (fun r => WriteFlush active (encR r)) rows ++ [WriteBuffered active []]) (snd p)
+      ++ flat_map (fun rows => map (fun r => WriteFlush active (encR r)) rows ++ [WriteFlush active []]) (snd p)
       ++ [Close active; Rename active final].
 
   (* a kill after k operations: what reached the OS survives, the buffer is lost *)
